@@ -10,7 +10,10 @@ Definition tv_norm (t : tv) : Prop := 0 <= tsec t /\ 0 <= tusec t < USEC.
 Definition tv_us (t : tv) : Z := tsec t * USEC + tusec t.                    (* AsInt() *)
 
 Definition tv_of_us (us : Z) : tv := mkTv (Z.quot us USEC) (Z.rem us USEC).   (* Set(int64_t): C division *)
-Definition tv_of_pair (s u : Z) : tv := mkTv s u.                             (* BaseTimeVal(int32_t, int32_t) *)
+(* BaseTimeVal(int32_t sec, int32_t usec), with fix 04: whole seconds of usec are folded into tv_sec (C division) *)
+Definition tv_of_pair (s u : Z) : tv := mkTv (s + Z.quot u USEC) (Z.rem u USEC).
+(* the constructor before fix 04 stored its arguments as given *)
+Definition tv_of_pair_before_fix (s u : Z) : tv := mkTv s u.
 Definition tv_of_ms (ms : Z) : tv := mkTv (Z.quot ms 1000) (Z.rem ms 1000 * 1000).  (* SelectServer ms overloads *)
 Definition tv_add (a b : tv) : tv :=                                          (* TimerAdd *)
   let s := tsec a + tsec b in let u := tusec a + tusec b in
@@ -31,10 +34,11 @@ Fixpoint idenote (e : iexp) : Z :=
   | IUs us => us | IPair s u => s * USEC + u | IMs ms => 1000 * ms
   | IAdd a b => idenote a + idenote b | IMul a k => idenote a * k
   end.
-(* the arguments respect the constructors' contracts: non-negative, microsecond field below one second *)
+(* the arguments respect the constructors' contracts: non-negative (a microsecond argument of one second or more is
+   fine; NEGATIVE arguments are outside the contract: C division then leaves a negative tv_usec) *)
 Fixpoint iwf (e : iexp) : Prop :=
   match e with
-  | IUs us => 0 <= us | IPair s u => 0 <= s /\ 0 <= u < USEC | IMs ms => 0 <= ms
+  | IUs us => 0 <= us | IPair s u => 0 <= s /\ 0 <= u | IMs ms => 0 <= ms
   | IAdd a b => iwf a /\ iwf b | IMul a k => iwf a /\ 0 <= k
   end.
 
@@ -75,7 +79,11 @@ Lemma ieval_ok e : iwf e -> tv_norm (ieval e) /\ tv_us (ieval e) = idenote e /\ 
 Proof.
   induction e; cbn [ieval idenote iwf]; intros W.
   - destruct (tv_of_us_ok us W). auto.
-  - unfold tv_norm, tv_us, tv_of_pair, USEC in *. cbn [tsec tusec]. destruct W as [A [B C]]. repeat split; nia.
+  - destruct W as [A B]. unfold tv_norm, tv_us, tv_of_pair, USEC in *. cbn [tsec tusec].
+    rewrite Z.quot_div_nonneg, Z.rem_mod_nonneg by lia.
+    pose proof (Z.div_mod u 1000000 ltac:(lia)) as D. pose proof (Z.mod_pos_bound u 1000000 ltac:(lia)) as M.
+    assert (P : 0 <= u / 1000000) by (apply Z.div_pos; lia).
+    repeat split; try lia; try nia.
   - destruct (tv_of_ms_ok ms W) as [A B]. split; [exact A|]. split; [exact B|lia].
   - destruct W as [W1 W2]. destruct (IHe1 W1) as (N1 & U1 & P1). destruct (IHe2 W2) as (N2 & U2 & P2).
     destruct (tv_add_ok _ _ N1 N2). repeat split; try apply H; lia.
